@@ -81,6 +81,8 @@ structure Ctx where
   diLen : Nat := 0
   ip : Nat := 0
   mode : Mode := .eval
+  /-- data stack height when the context was opened -/
+  dsOpen : Nat := 0
 deriving DecidableEq, Repr
 
 /-- The machine. Stacks are lists with the *top at the head*; `ds.length - ctx.dsLen` cells are visible. -/
@@ -529,6 +531,17 @@ def resolveOp (m : Mach) (name : String) : Outcome Op :=
   | some (.interp _ addr) => .ok (.call addr)
   | some (.native _ n) => .ok (.native n)
 
+/-- what `Resolve` does to the code: backpatch the resolved opcode — except inside a meta block, where
+    the name is bound for this execution only (the block's definitions are purged when it closes) -/
+def patchCode (m : Mach) (ip : Nat) (op : Op) : Mach :=
+  if m.ctx.mode = .metaEval then m else { m with code := m.code.set ip op }
+
+theorem patchCode_eq (m : Mach) (ip : Nat) (op : Op) : ∃ cp, m.patchCode ip op = { m with code := cp } ∧
+    cp.length = m.code.length ∧ (m.ctx.mode = .metaEval → cp = m.code) := by
+  unfold patchCode; split
+  · exact ⟨m.code, rfl, rfl, fun _ => rfl⟩
+  · rename_i h; exact ⟨_, rfl, by simp, fun hm => absurd hm h⟩
+
 /-- `fetch_and_run` (precondition of the Rust: `ip < code.len()`, otherwise the index panics) -/
 def step (nativeProg : String → Option Prog) (m : Mach) : R Unit :=
   let ip := m.ctx.ip
@@ -543,7 +556,8 @@ def step (nativeProg : String → Option Prog) (m : Mach) : R Unit :=
       | .err e => (.err e, m)
       | .panic s => (.panic s, m)
       | .ok op =>
-        let m := { m with code := m.code.set ip op }
+        -- inside a meta block the name is bound for this execution only (the block's definitions are purged)
+        let m := m.patchCode ip op
         -- the patched instruction is fetched again, through the meter
         match m.meterIncrease with
         | (.err e, m) => (.err e, m)
